@@ -211,9 +211,16 @@ var shapes = []shape{
 	{"dir-nonexec+after", "dir", func(v string) []sfile { return []sfile{cand(0o644)(v), after} }, true, true, true, "nonexec", false},
 	{"dir-exe+before+after", "dir", func(v string) []sfile { return []sfile{before, cand(0o755)(v), after} }, true, true, true, "exe", false},
 	{"dir-nonexec+before+after", "dir", func(v string) []sfile { return []sfile{before, cand(0o644)(v), after} }, true, true, false, "nonexec", false},
+	// one executable candidate plus further regular non-executable files named notation-*
 	{"dir-exe+nonexec-other-name", "dir", func(v string) []sfile {
 		return []sfile{cand(0o755)(v), {"notation-zzz", 0o644, stub("zzz", v, false)}}
 	}, true, true, false, "exe", false},
+	{"dir-exe+nonexec-other-name-before", "dir", func(v string) []sfile {
+		return []sfile{{"notation-aaa", 0o644, stub("aaa", v, false)}, cand(0o755)(v)}
+	}, true, true, true, "exe", true},
+	{"dir-exe+nonexec-own-name-suffixed", "dir", func(v string) []sfile {
+		return []sfile{cand(0o755)(v), {"notation-foo.sha256", 0o644, "0000  notation-foo\n"}, {"notation-foo-defaults.conf", 0o644, "k=v\n"}}
+	}, true, true, false, "exe", true},
 	{"dir-two-exe", "dir", func(v string) []sfile {
 		return []sfile{{"notation-bar", 0o755, stub("bar", v, false)}, cand(0o755)(v)}
 	}, false, true, true, "", false},
@@ -443,6 +450,35 @@ func buildSource(base string, sh *shape, v string) (srcDesc, error) {
 	if err := os.MkdirAll(d.Path, 0o755); err != nil {
 		return d, err
 	}
+	// The source directory of a case is REUSED by all operations of its history:
+	// files that stay are rewritten in place (same inode), files the new shape
+	// does not have are unlinked. An installed plugin must not depend on what
+	// happens to the source it came from afterwards.
+	wanted := map[string]bool{}
+	for _, f := range sh.Files(v) {
+		for p := f.Rel; p != "." && p != "/" && p != ""; p = filepath.ToSlash(filepath.Dir(p)) {
+			wanted[p] = true
+		}
+	}
+	var stale []string
+	_ = filepath.WalkDir(d.Path, func(p string, de fs.DirEntry, err error) error {
+		if err != nil || p == d.Path {
+			return nil
+		}
+		rel, _ := filepath.Rel(d.Path, p)
+		if !wanted[filepath.ToSlash(rel)] {
+			stale = append(stale, p)
+			if de.IsDir() {
+				return fs.SkipDir
+			}
+		}
+		return nil
+	})
+	for _, p := range stale {
+		if err := os.RemoveAll(p); err != nil {
+			return d, err
+		}
+	}
 	for _, f := range sh.Files(v) {
 		if f.Mode.IsDir() { // an empty sub-directory
 			if err := os.MkdirAll(filepath.Join(d.Path, filepath.FromSlash(f.Rel)), 0o755); err != nil {
@@ -591,6 +627,25 @@ var inits = []initState{
 	{"broken-foo", func(root string) error {
 		return writeFile(filepath.Join(root, pluginName, exeName), 0o755, brokenScript)
 	}, model{"broken", true}},
+	// further ways an installed plugin can fail to answer (class "existing plugin without a version")
+	{"broken-foo-stderr-text", func(root string) error {
+		return writeFile(filepath.Join(root, pluginName, exeName), 0o755, "#!/bin/sh\necho 'cannot load library' >&2\nexit 1\n")
+	}, model{"broken", true}},
+	{"broken-foo-stderr-json-error", func(root string) error {
+		return writeFile(filepath.Join(root, pluginName, exeName), 0o755, "#!/bin/sh\necho '{\"errorCode\":\"ERROR\",\"errorMessage\":\"down\"}' >&2\nexit 1\n")
+	}, model{"broken", true}},
+	{"broken-foo-garbage-answer", func(root string) error {
+		return writeFile(filepath.Join(root, pluginName, exeName), 0o755, "#!/bin/sh\necho 'hello'\nexit 0\n")
+	}, model{"broken", true}},
+	{"broken-foo-answers-other-name", func(root string) error {
+		return writeFile(filepath.Join(root, pluginName, exeName), 0o755, stub("bar", "1.0.0", false))
+	}, model{"broken", true}},
+	{"broken-foo-not-executable", func(root string) error {
+		return writeFile(filepath.Join(root, pluginName, exeName), 0o644, stub(pluginName, "1.0.0", false))
+	}, model{"broken", true}},
+	{"broken-foo-empty-file", func(root string) error {
+		return writeFile(filepath.Join(root, pluginName, exeName), 0o755, "")
+	}, model{"broken", true}},
 	{"stray-dir", func(root string) error {
 		return writeFile(filepath.Join(root, "zz-stray", "readme.txt"), 0o644, "not a plugin\n")
 	}, model{"none", false}},
@@ -738,7 +793,7 @@ func plainShape(sh *shape) bool { return sh.Label == "file-exe" || sh.Label == "
 //     strictly higher / a version that is no semantic version        -> refuse (stated, whatever the source)
 //   - source labelled unusable                                       -> either: the statement does not define
 //     "usable"; a success must still satisfy every stated consequence for plugin foo
-//   - existing plugin malfunctioning, no overwrite                   -> either
+//   - existing plugin malfunctioning (no version), no overwrite      -> refuse (stated: neither condition holds)
 //   - new version not a semantic version, nothing to compare with
 //     (no existing plugin, or overwrite)                             -> either ("invalid version" may be refused)
 //   - a shape other than the plain executable / directory holding
@@ -758,7 +813,11 @@ func expect(m model, o op) (want, reason string) {
 	case o.Overwrite:
 		rule = "overwrite"
 	case m.Existing == "broken":
-		rule = "broken-existing-no-overwrite"
+		// "replaces an existing plugin of the same name only if the new version is
+		// strictly higher …, or if overwrite is requested": a plugin that does not
+		// answer has no version the new one could be strictly higher than, and
+		// overwrite is not requested, so it must not be replaced.
+		return "refuse", "existing-version-unknown"
 	default:
 		e := verOf(m.Existing[2:])
 		switch {
@@ -774,8 +833,6 @@ func expect(m model, o op) (want, reason string) {
 	switch {
 	case !sh.Usable:
 		return "either", "unusable-source"
-	case rule == "broken-existing-no-overwrite":
-		return "either", rule
 	case !v.Valid:
 		return "either", "invalid-version-nothing-to-compare/" + rule
 	case !plainShape(sh):
@@ -1068,7 +1125,8 @@ func runCase(req request) (res result) {
 	}
 	for i, h := range req.Hist {
 		res.Evals++
-		ok, err := applyRaw(mgr, filepath.Join(req.Dir, fmt.Sprintf("h%d", i)), h)
+		_ = i
+		ok, err := applyRaw(mgr, filepath.Join(req.Dir, "src"), h)
 		if err != nil {
 			res.Infra = err.Error()
 			return
